@@ -582,6 +582,114 @@ fn check_series(start: f64, incs: &[f64], ys: &[f64], nan_mask: &[bool], ops: &[
         let got = cur.area_under();
         ensure!((got - a).abs() <= 1e-9 * (abs + 1e-300), "C17/area_under/trapezoid", "area_under = {got:e}, trapezoid sum {a:e}");
     }
+    // the remaining read-only queries of the public API, against a scan of the stored knots
+    if n >= 2 && !m.has_repeat() && m.ys.iter().all(|y| y.is_finite()) {
+        cx.label("scan_queries");
+        // index_of_x_after: first knot at or after x (n beyond the end)
+        let mut qs = m.xs.clone();
+        for w in m.xs.windows(2) {
+            qs.push(w[0] + 0.5 * (w[1] - w[0]));
+        }
+        qs.push(m.xs[0] - 1.0 - m.xs[0].abs());
+        qs.push(m.xs[n - 1] + 1.0 + m.xs[n - 1].abs());
+        for q in &qs {
+            let exp = m.xs.iter().filter(|x| **x < *q).count();
+            let got = match guarded(|| cur.index_of_x_after(*q)) {
+                Ok(g) => g,
+                Err(msg) => return Verdict::fail("C17/index_of_x_after/panic", msg),
+            };
+            ensure!(got == exp, "C17/index_of_x_after/wrong", "index_of_x_after({q:e}) = {got}, the first knot at or after it is {exp}; knots {:?}", m.xs);
+        }
+        // per-interval areas: one (midpoint, trapezoid) per interval, summing to area_under
+        let parts = cur.middle_reiemann_areas();
+        ensure!(parts.len() == n - 1, "C17/middle_reiemann_areas/count", "{} areas for {} intervals", parts.len(), n - 1);
+        let (_, abs_area) = m.area();
+        for (i, (mx, a)) in parts.iter().enumerate() {
+            let (x0, x1, y0, y1) = (m.xs[i], m.xs[i + 1], m.ys[i], m.ys[i + 1]);
+            let ea = (x1 - x0) * (y0 + y1) * 0.5;
+            ensure!(*mx >= x0 && *mx <= x1 && (*mx - 0.5 * (x0 + x1)).abs() <= 4.0 * ulp(m.xabs().max(1e-300)), "C17/middle_reiemann_areas/midpoint", "interval {i} [{x0:e},{x1:e}] reports abscissa {mx:e}");
+            ensure!((a - ea).abs() <= 1e-12 * (ea.abs() + abs_area) + 1e-300, "C17/middle_reiemann_areas/area", "interval {i}: area {a:e}, trapezoid {ea:e}");
+        }
+        // extremes
+        let (mut imax, mut imin) = (0usize, 0usize);
+        for i in 1..n {
+            if m.ys[i] > m.ys[imax] {
+                imax = i;
+            }
+            if m.ys[i] < m.ys[imin] {
+                imin = i;
+            }
+        }
+        ensure!(cur.y_max() == m.ys[imax] && cur.y_min() == m.ys[imin], "C17/y_min_max/value", "y_min/y_max = {:e}/{:e}, stored extremes {:e}/{:e}", cur.y_min(), cur.y_max(), m.ys[imin], m.ys[imax]);
+        let (gx, gy) = cur.global_maxima_xy();
+        ensure!(gy == m.ys[imax] && gx == m.xs[imax], "C17/global_maxima_xy/value", "global_maxima_xy = ({gx:e},{gy:e}), first greatest knot is ({:e},{:e}); y={:?}", m.xs[imax], m.ys[imax], m.ys);
+        for (name, (lx, ly)) in [("global_minima_xy", cur.global_minima_xy()), ("global_minima_x", cur.global_minima_x())] {
+            ensure!(ly == m.ys[imin] && lx == m.xs[imin], format!("C17/{name}/value"), "{name} = ({lx:e},{ly:e}), first least knot is ({:e},{:e}); y={:?}", m.xs[imin], m.ys[imin], m.ys);
+        }
+        ensure!(cur.is_ordered(), "C17/is_ordered/false", "is_ordered() is false for strictly ascending knots {:?}", m.xs);
+        let pts = cur.as_points();
+        let pairs: Vec<(f64, f64)> = cur.xys().map(|(x, y)| (*x, *y)).collect();
+        ensure!(pts.len() == n && pairs.len() == n && (0..n).all(|i| pts[i].x == m.xs[i] && pts[i].y == m.ys[i] && pairs[i] == (m.xs[i], m.ys[i])), "C17/as_points/pairs", "as_points / xys do not list the stored knots in order");
+        // local maxima: every knot strictly above both neighbours (one neighbour at the ends) is listed, nothing else
+        let strict_max = |i: usize| (i == 0 || m.ys[i] > m.ys[i - 1]) && (i == n - 1 || m.ys[i] > m.ys[i + 1]);
+        let lm = cur.local_maxima_xs();
+        let exp_lm: Vec<f64> = (0..n).filter(|&i| strict_max(i)).map(|i| m.xs[i]).collect();
+        ensure!(lm == exp_lm, "C17/local_maxima_xs/set", "local_maxima_xs = {:?}, knots above both neighbours are {:?}; y={:?}", lm, exp_lm, m.ys);
+        // plateau around a maximum: the component of { f >= f(x) - t } containing x, cut at the level crossings either
+        // side (an end of the domain where the series is still above the level counts as a crossing)
+        let yr = (m.ys[imax] - m.ys[imin]).abs();
+        let mut asks: Vec<(f64, f64, f64)> = vec![]; // (x, f(x), t)
+        for i in (0..n).filter(|&i| strict_max(i)) {
+            for t in [0.25 * yr, 1e-3 * yr, 2.0 * yr + 1.0] {
+                asks.push((m.xs[i], m.ys[i], t));
+            }
+            for l in levels {
+                if *l < m.ys[i] {
+                    asks.push((m.xs[i], m.ys[i], m.ys[i] - *l));
+                }
+            }
+        }
+        let ytol = 1e-9 * (1.0 + m.ymax());
+        for (x, fx, t) in asks.into_iter().filter(|a| a.2 > 4.0 * ytol).take(24) {
+            let level = fx - t;
+            // exact contact of the level with a knot or a flat segment makes the set of crossings itself a matter of
+            // convention; those levels are decided by the y_crossings block below, not here
+            if m.ys.iter().any(|y| (*y - level).abs() <= 4.0 * ytol) {
+                cx.label("plateau_level_on_knot_excluded");
+                continue;
+            }
+            let got = match guarded(|| cur.plateau_at_maxima(x, t)) {
+                Ok(g) => g,
+                Err(msg) => return Verdict::fail("C17/plateau_at_maxima/panic", format!("plateau_at_maxima({x:e},{t:e}) panicked: {msg}; knots x={:?} y={:?}", m.xs, m.ys)),
+            };
+            // reference: walk outwards from x over knots above the level
+            let k = m.xs.iter().position(|v| *v == x).unwrap();
+            let mut lo = m.xs[0];
+            for i in (0..k).rev() {
+                if m.ys[i] < level {
+                    lo = m.xs[i] + (level - m.ys[i]) * (m.xs[i + 1] - m.xs[i]) / (m.ys[i + 1] - m.ys[i]);
+                    break;
+                }
+            }
+            let mut hi = m.xs[n - 1];
+            for i in k + 1..n {
+                if m.ys[i] < level {
+                    hi = m.xs[i - 1] + (level - m.ys[i - 1]) * (m.xs[i] - m.xs[i - 1]) / (m.ys[i] - m.ys[i - 1]);
+                    break;
+                }
+            }
+            let xt = |v: f64| 2e-10 + 64.0 * ulp(v.abs().max(m.xabs()));
+            match got {
+                None => return Verdict::fail("C17/plateau_at_maxima/none", format!("plateau_at_maxima({x:e},{t:e}) = None, but the series stays above {level:e} on [{lo:e},{hi:e}] around x; knots x={:?} y={:?}", m.xs, m.ys)),
+                Some(iv) => {
+                    ensure!((iv.min - lo).abs() <= xt(lo) && (iv.max - hi).abs() <= xt(hi), "C17/plateau_at_maxima/bounds", "plateau_at_maxima({x:e},{t:e}) = [{:e},{:e}], the series is above {level:e} exactly on [{lo:e},{hi:e}] around x; knots x={:?} y={:?}", iv.min, iv.max, m.xs, m.ys);
+                }
+            }
+            cx.label("plateau");
+            cx.label_if(k == n - 1, "plateau_at_last_knot");
+            cx.label_if(k == 0, "plateau_at_first_knot");
+        }
+    }
     // level crossings
     if n >= 2 {
         for level in levels {
